@@ -11,6 +11,7 @@ variable {α : Type}
 
 macro "pylc_exec" "[" ts:Lean.Parser.Tactic.simpLemma,* "]" : tactic =>
   `(tactic| simp [runListInit, runListObjectInit, Generated.Ctor.traitListInit, Generated.Ctor.traitListObjectInit,
+      Generated.Ctor.traitSetInit, Generated.Ctor.traitSetObjectInit, setInit, setObjectInit,
       exec, eval, getVar, truthy, setAttrObj, finish, optVal, listInit, listObjectInit, Ctx.vOf, $ts,*])
 
 theorem list_init_is_source (C : Ctx α) (xs : List α) (iv : Option VSrc) (ns : Option NSrc) :
@@ -43,5 +44,34 @@ theorem list_object_init_is_source (C : Ctx α) (t : Option Bool) (owner : Bool)
     | error e => rcases t with _ | _ | _ <;> cases owner <;> pylc_exec [hl, hv]
     | ok ys => rcases t with _ | _ | _ <;> cases owner <;> pylc_exec [hl, hv]
   · rcases t with _ | _ | _ <;> cases owner <;> pylc_exec [hl]
+
+theorem set_init_is_source (C : Ctx α) (xs : List α) (iv : Option VSrc) (ns : Option NSrc) :
+    runListInit Generated.Ctor.traitSetInit C xs iv ns = setInit C xs iv ns := by
+  have key : ∀ v : VSrc, (match iv with | some w => w | none => VSrc.everything) = v →
+      runListInit Generated.Ctor.traitSetInit C xs iv ns = setInit C xs iv ns := by
+    intro v hvv
+    cases hv : valAll (C.vOf v) 0 xs with
+    | error e =>
+      rcases iv with _ | w
+      · subst hvv; simp [Ctx.vOf] at hv; cases ns <;> pylc_exec [hv]
+      · simp at hvv; subst hvv; cases ns <;> cases w <;> simp [Ctx.vOf] at hv <;> pylc_exec [hv]
+    | ok ys =>
+      rcases iv with _ | w
+      · subst hvv; simp [Ctx.vOf] at hv
+        rcases ns with _ | n
+        · pylc_exec [hv]
+        · cases n <;> pylc_exec [hv]
+      · simp at hvv; subst hvv
+        rcases ns with _ | n
+        · cases w <;> simp [Ctx.vOf] at hv <;> pylc_exec [hv]
+        · cases n <;> cases w <;> simp [Ctx.vOf] at hv <;> pylc_exec [hv]
+  exact key _ rfl
+
+theorem set_object_init_is_source (C : Ctx α) (t : Option Bool) (owner : Bool) (xs : List α) :
+    runListObjectInit Generated.Ctor.traitSetObjectInit Generated.Ctor.traitSetInit C t owner xs
+      = setObjectInit C t owner xs := by
+  cases hv : valAll C.own 0 xs with
+  | error e => rcases t with _ | _ | _ <;> cases owner <;> pylc_exec [hv]
+  | ok ys => rcases t with _ | _ | _ <;> cases owner <;> pylc_exec [hv]
 
 end TraitsVerif.Lemmas.PyLCtor
